@@ -48,6 +48,12 @@ def gen_case(rng, tier, avoid):
                     op['kwargs'].setdefault('set_name', sn['set_name'])
         m = genmeta.populate(spec, lfi, rng, n=rng.choice([4, 8, 14]), routes=rng.random() < 0.5, set_name=sn.get('set_name'),
                              p_attr=0.5, units=False)
+        if n_lf == 1 and 'same_name_other_set' not in avoid and rng.random() < 0.2:
+            # same-named objects of one type placed in two different sets of the logical file
+            kd = rng.choice(['zone', 'axis', 'equipment', 'comment'])
+            nm2 = 'TWIN'
+            for sname in ('SET-A', 'SET-B'):
+                spec.add(lfi, kd, nm2, set_name=sname)
         # explicit origin references on a few objects, pointing at origins of this logical file
         refs = [op['kwargs']['origin_reference'] for op in spec.ops[start:] if op.get('kind') == 'origin'
                 and 'origin_reference' in op['kwargs']]
@@ -115,8 +121,9 @@ def check_file(m, dec, fid, fp0):
             for o in s.objects:
                 k = (s.type,) + tuple(o.name)
                 if k in seen:
-                    out.append(C.V('C07.identity_not_unique', dict(fp0, set=s.type), identity=list(k), lf=li))
-                seen[k] = True
+                    out.append(C.V('C07.identity_not_unique', dict(fp0, set=s.type, other_set=seen[k] != s.name),
+                                   identity=list(k), lf=li, sets=[seen[k], s.name]))
+                seen[k] = s.name
         # (c) origin fields: every object's origin is the origin reference of an ORIGIN object of this logical file
         origin_refs = set(o.name[0] for s in lfd.sets if s.type == 'ORIGIN' for o in s.objects)
         for mo in lfm.objects:
@@ -210,6 +217,18 @@ def check_case(case, ex):
         dec = rp66.decode_file(st['file'])
         fp0 = {'origin_pos': pos, 'write_no': n + 1, 'n_lf': Pm['n_lf']}
         out.extend(check_file(m, dec, 'f0', fp0))
+        # the reference that opens each indirectly formatted record names the frame / no-format object the user passed
+        rv, _ = I.rows(m, dec, 'f0', hist[i], prop='C07', extra_fp=fp0)
+        for x in rv:
+            if x['rule'] in ('C07.row_count', 'C07.frame_ref', 'C07.frame_number'):
+                x['rule'] = 'C07.iflr_ref_wrong_target'
+                out.append(x)
+        pv, _ = I.payloads(m, dec, 'f0', prop='C07')
+        for x in pv:
+            if x['rule'] in ('C07.wrong_object', 'C07.payload_count'):
+                x['rule'] = 'C07.iflr_ref_wrong_target'
+                x['fp'].update(fp0)
+                out.append(x)
         hard = [e for e in dec.errors if e.rule.startswith(('framing.', 'reasm.', 'eflr.', 'decode.'))]
         if hard and not out:
             out.append(C.V('C07.undecodable', dict(fp0, why=hard[0].rule), **hard[0].detail))
